@@ -70,13 +70,13 @@ def linkOf : ATok → Option Link
   | _ => none
 
 /-- A parsed counter function.  The counter style of `target-counter(s)()` is `get_keyword(token)`: the
-lower-cased identifier, or Python `None` for a token that is not an identifier (see
-`Witness.C15.target_counter_string_style`). -/
+lower-cased identifier; since 9677ed2 a token that is not an identifier makes the whole function invalid (it
+used to be stored as the style `None`, on which `render_value` failed its assert). -/
 inductive Parsed where
   | counter (name : String) (style : CName)
   | counters (name sep : String) (style : CName)
-  | targetCounter (link : Link) (name : String) (style : Option String)
-  | targetCounters (link : Link) (name sep : String) (style : Option String)
+  | targetCounter (link : Link) (name : String) (style : String)
+  | targetCounters (link : Link) (name sep : String) (style : String)
   | targetText (link : Link) (mode : String)
   deriving Repr, DecidableEq
 
@@ -122,13 +122,13 @@ def targetFn (name : String) (tokens : List ATok) : Option Parsed :=
         | some l =>
           if name = "target-counter" then
             match args with
-            | [.ident n] => some (.targetCounter l n (some "decimal"))
-            | [.ident n, st] => some (.targetCounter l n (keyword? st))
+            | [.ident n] => some (.targetCounter l n "decimal")
+            | [.ident n, st] => (keyword? st).map (.targetCounter l n)
             | _ => none
           else if name = "target-counters" then
             match args with
-            | [.ident n, .str sep] => some (.targetCounters l n sep (some "decimal"))
-            | [.ident n, .str sep, st] => some (.targetCounters l n sep (keyword? st))
+            | [.ident n, .str sep] => some (.targetCounters l n sep "decimal")
+            | [.ident n, .str sep, st] => (keyword? st).map (.targetCounters l n sep)
             | _ => none
           else
             match args with
